@@ -39,6 +39,7 @@ def setup(ctx):
     ]
     ctx.require("monitor", "concurrent_fetches", 30)
     ctx.require("monitor", "fetches_with_trouble_after_3x", 8)
+    ctx.require("monitor", "fetches_with_derived_targets", 40)
     ctx.require("monitor", "fetches", 300)
     ctx.require("monitor", "connections_logged", 500)
     ctx.require("monitor", "verify_calls", 500)
@@ -405,6 +406,86 @@ def run_trouble_after_redirect(ctx, world):
     world.trouble.clear()
 
 
+def run_derived_targets(ctx):
+    """Chains that never end and never repeat: every hop redirects to a URL DERIVED from the one just requested
+    (a slash appended, a segment appended, a counter in the query, the port written out) - the usual shapes of a
+    misconfigured server.  No URL occurs twice, so only the count can stop the client: at most max_redirects + 1
+    connections, and an error that says so.  Also: chains of such hops that do end, exactly at / one over the limit."""
+    import asyncio
+    import tempfile
+
+    from nauyaca.client.session import GeminiClient
+
+    mode = {"how": "slash", "ends_after": None}
+    seen = []
+
+    def behaviour(conn):
+        line = conn.read_line(timeout=4)
+        if line is None:
+            conn.close()
+            return
+        url = line.decode("utf-8", "replace")
+        seen.append(url)
+        how = mode["how"]
+        if mode["ends_after"] is not None and len(seen) > mode["ends_after"]:
+            conn.send(b"20 text/gemini\r\nend of a derived chain\n")
+            conn.close()
+            return
+        if how == "slash":
+            target = url + "/"
+        elif how == "segment":
+            target = url.rstrip("/") + "/more"
+        elif how == "query-counter":
+            target = url.split("?")[0] + f"?step={len(seen)}"
+        elif how == "slash-then-segment":
+            target = url + ("/" if len(seen) % 2 else "x")
+        else:  # "slash-once-then-back": x -> x/ -> x -> ...
+            target = url[:-1] if url.endswith("/") else url + "/"
+        conn.send(f"3{len(seen) % 2} {target}\r\n".encode())
+        conn.close()
+
+    with peers.ScriptedPeer(certs.identity("c16-derived", "ec"), behaviour, name="derived") as srv:
+        for how in ("slash", "segment", "query-counter", "slash-then-segment", "slash-once-then-back"):
+            for mr in (0, 1, 2, 5):
+                for ends_after in (None, mr, mr + 1):
+                    if how == "slash-once-then-back" and ends_after is not None:
+                        continue
+                    mode.update(how=how, ends_after=ends_after)
+                    del seen[:]
+                    tmp = tempfile.mkdtemp(prefix="vf-c16d-")
+                    n0 = len(srv.log)
+
+                    async def go():
+                        c = GeminiClient(timeout=8, max_redirects=mr, trust_on_first_use=True, tofu_db_path=Path(os.path.join(tmp, "t.db")))
+                        return await c.get(f"gemini://127.0.0.1:{srv.port}/d")
+
+                    try:
+                        r = asyncio.run(go())
+                        res = ("response", r.status, (r.meta or "")[:60])
+                    except BaseException as e:  # noqa: BLE001
+                        res = ("error", type(e).__name__, str(e)[:80])
+                    finally:
+                        shutil.rmtree(tmp, ignore_errors=True)
+                    srv.wait_idle(3)
+                    conns = len(srv.log) - n0
+                    ctx.count("monitor", "fetches")
+                    ctx.count("monitor", "fetches_with_derived_targets")
+                    ctx.count("monitor", "connections_logged", conns)
+                    wit = {"level": "derived-targets", "each_hop_redirects_to": how, "max_redirects": mr, "chain_ends_after_hops": ends_after, "result": res, "connections": conns, "requested": seen[:8]}
+                    if conns > mr + 1:
+                        ctx.violation(f"too-many-connections:derived-target={how}", f"max_redirects={mr} allows {mr + 1} connections, {conns} were opened", wit)
+                    elif ends_after is not None and ends_after <= mr:
+                        if res[:2] != ("response", 20) or conns != ends_after + 1:
+                            ctx.violation(f"chain-within-limit-not-followed:derived-target={how}", f"a chain of {ends_after} redirects (limit {mr}) must end in its 20; got {res} after {conns} connections", wit)
+                        else:
+                            ctx.count("monitor", "chains_followed_to_end")
+                    elif res[0] != "error":
+                        ctx.violation(f"overlong-chain-returned-response:derived-target={how}", f"the chain is longer than max_redirects={mr}; the call returned {res} instead of an error", wit)
+                    else:
+                        ctx.count("monitor", "loops_or_overlong")
+                    ctx.case(("derived", how, mr, ends_after, res[0], conns), True, sample=wit)
+
+
 def run_concurrent(ctx, world):
     """Several redirect-following fetches in flight at once on ONE client: each keeps its own redirect count and
     loop history (chains within the limit are followed to the end, cycles and over-long chains stop in time)."""
@@ -505,6 +586,8 @@ def run(ctx):
             run_concurrent(ctx, world)
         if ctx.shard == 1 or ctx.nshards == 1:
             run_trouble_after_redirect(ctx, world)
+        if ctx.mine(2) or ctx.nshards == 1:
+            run_derived_targets(ctx)
         n = ctx.pick(160, 6000) // ctx.nshards
         for i in range(n):
             nodes, edges, start, label = random_graph(rng, world)
